@@ -418,8 +418,16 @@ class SelectWith(Statement):
         if self._default is None:
             assert len(self._branches) != 0
 
+        # a choice may only appear once, the first branch wins (as in Python)
+        unique = {}
+
+        for branch in self._branches:
+            unique.setdefault(branch[0].write(scope, self._arg.result), branch)
+
+        branches = list(unique.values())
+
         # the choices must cover every value of the selector (incl. metavalues)
-        separators = "," * len(self._branches)
+        separators = "," * len(branches)
 
         assert isinstance(self._arg, Value)
 
@@ -442,7 +450,7 @@ class SelectWith(Statement):
                     [
                         *[
                             f"{branch[1].write(scope, self._target.result)} when {branch[0].write(scope, self._arg.result)}{sep}"
-                            for branch, sep in zip(self._branches, separators)
+                            for branch, sep in zip(branches, separators)
                         ],
                         *[
                             f"{default.write(scope, self._target.result)} when others;"
@@ -487,6 +495,14 @@ class CaseWhen(Statement):
                 return TextBlock("null;")
             return block.write(scope)
 
+        # a choice may only appear once, the first branch wins (as in Python)
+        unique = {}
+
+        for branch in self._branches:
+            unique.setdefault(branch[0].write(scope, target_hint=cond.result), branch)
+
+        branches = list(unique.values())
+
         return TextBlock(
             [
                 f"case {cond.write(scope, constrain=True)} is",
@@ -497,7 +513,7 @@ class CaseWhen(Statement):
                             IndentBlock(write_block(block)),
                         ]
                     )
-                    for value, block in self._branches
+                    for value, block in branches
                 ],
                 (
                     IndentBlock(["when others =>", IndentBlock("null;")])
